@@ -75,6 +75,10 @@ impl Caret {
 
         self.pos.x = 0;
         self.pos.y += 1;
+        if !buf.is_terminal_buffer {
+            // a file buffer has at most MAX_FILE_BUFFER_HEIGHT rows: stay on the last one instead of growing without end
+            buf.terminal_state.limit_caret_pos(buf, self);
+        }
         while self.pos.y >= buf.layers[current_layer].lines.len() as i32 {
             let len = buf.layers[current_layer].lines.len();
             let buffer_width = buf.terminal_state.get_width();
